@@ -1,5 +1,7 @@
 """C12 — equality checkers never give a wrong definite answer: decision structure and data flow."""
-from .. import hir, paths
+import itertools
+
+from .. import hir, paths, minirust
 from ..controls import fixture
 
 EQ = 'equality::equal_graph_with_options'
@@ -65,6 +67,226 @@ def decision_structure(f):
     return res
 
 
+# ---------------------------------------------------------------- decision functions evaluated over a symbolic host (round 2)
+
+class _G(minirust.Obj):
+    """a diagram as an expression over the two arguments: ('arg', i) | ('adj', e) | ('comp', e1, e2) | ('simp', fn, e)"""
+
+    def __init__(self, expr, world):
+        self.expr, self.world = expr, world
+        w = world
+        minirust.Obj.__init__(self, 'graph', {
+            'to_adjoint': lambda a: _G(('adj', self.expr), w), 'clone': lambda a: _G(self.expr, w), 'to_owned': lambda a: _G(self.expr, w),
+            'adjoint': lambda a: self._set(('adj', self.expr)), 'plug': lambda a: self._set(('comp', self.expr, _gexpr(a[0]))),
+            'is_identity': lambda a: self._ask_identity(), 'scalar': lambda a: _S(self.expr, w),
+            'to_tensor4': lambda a: _T(self.expr, w), 'to_tensorf': lambda a: _T(self.expr, w),
+        }, strict=False)
+
+    def _set(self, e):
+        self.expr = e
+        return None
+
+    def _ask_identity(self):
+        self.world['identity_asked_on'].append(self.expr)
+        return self.world['identity']
+
+
+def _gexpr(x):
+    if isinstance(x, _G):
+        return x.expr
+    raise minirust.NoEval('a diagram was expected, found %r' % (x,))
+
+
+class _S(minirust.Obj):
+    def __init__(self, expr, w):
+        self.expr = expr
+        minirust.Obj.__init__(self, 'scalar', {'complex_value': lambda a: _Cx(expr, w), 'clone': lambda a: self}, strict=False)
+
+
+class _Cx(minirust.Obj):
+    def __init__(self, expr, w):
+        self.expr = expr
+        minirust.Obj.__init__(self, 'complex', {'arg': lambda a: _Arg(expr, w)}, strict=False)
+
+
+class _Arg:
+    """the argument of the scalar of a diagram; comparing it with 0.0 asks the world"""
+
+    def __init__(self, expr, w):
+        self.expr, self.w = expr, w
+
+    def is_zero_test(self, other):
+        if isinstance(other, (int, float)) and not isinstance(other, bool) and other == 0:
+            self.w['arg_tested_on'].append(self.expr)
+            return self.w['argzero']
+        raise minirust.NoEval('the scalar argument is compared with %r' % (other,))
+
+    def __eq__(self, o):
+        return self.is_zero_test(o)
+
+    def __ne__(self, o):
+        return not self.is_zero_test(o)
+    __hash__ = None
+
+
+class _T:
+    """the tensor of a diagram; comparing two asks the world"""
+
+    def __init__(self, expr, w):
+        self.expr, self.w = expr, w
+
+    def __eq__(self, o):
+        if isinstance(o, _T):
+            self.w['tensors_compared'].append((self.expr, o.expr))
+            return self.w['teq']
+        raise minirust.NoEval('a tensor is compared with %r' % (o,))
+
+    def __ne__(self, o):
+        return not self == o
+    __hash__ = None
+
+
+def _strip_simp(e):
+    if e[0] == 'simp':
+        return _strip_simp(e[2])
+    if e[0] == 'adj':
+        return ('adj', _strip_simp(e[1]))
+    if e[0] == 'comp':
+        return ('comp', _strip_simp(e[1]), _strip_simp(e[2]))
+    return e
+
+
+def _is_composition(e):
+    """adjoint of one argument composed with the OTHER argument (either order of composition)"""
+    e = _strip_simp(e)
+    if e[0] != 'comp':
+        return False
+    for a, b in ((e[1], e[2]), (e[2], e[1])):
+        if a[0] == 'adj' and a[1][0] == 'arg' and b[0] == 'arg' and {a[1][1], b[1]} == {1, 2}:
+            return True
+    return False
+
+
+def _world(**kw):
+    w = dict(identity_asked_on=[], arg_tested_on=[], tensors_compared=[], dims_asked=[], simp=[], delegated=[])
+    w.update(kw)
+    return w
+
+
+def _interp(w, simplifiers, delegate=None):
+    it = minirust.Interp(fuel=3000)
+
+    def host_call(c, e, args):
+        if c == 'equality::equal_graph_dim':
+            a = args()
+            w['dims_asked'].append(tuple(_gexpr(x) for x in a))
+            return w['dims']
+        if c.startswith('simplify::') and len(e['args']) == 1:
+            a = args()
+            if c not in simplifiers:
+                raise minirust.NoEval('%s is not one of the simplifiers covered by C01' % c)
+            g = a[0]
+            g._set(('simp', c, _gexpr(g)))
+            w['simp'].append(c)
+            return True
+        if c.endswith('Default::default') and 'AbsDiff' in (e.get('ty') or ''):
+            def eq(a):
+                for x, y in ((a[0], a[1]), (a[1], a[0])):
+                    if isinstance(x, _Arg):
+                        return x.is_zero_test(y)
+                raise minirust.NoEval('abs_diff_eq on %r' % (a,))
+            o = minirust.Obj('absdiff', {'eq': eq, 'ne': lambda a: not eq(a)}, strict=True)
+            o.methods['epsilon'] = lambda a: o
+            return o
+        if delegate and c in delegate:
+            a = args()
+            w['delegated'].append((c, a))
+            return ('delegated', c)
+        return NotImplemented
+    it.host_call = host_call
+    return it
+
+
+SIMPLIFIERS = ('simplify::full_simp', 'simplify::clifford_simp', 'simplify::interior_clifford_simp', 'simplify::flow_simp', 'simplify::spider_simp', 'simplify::id_simp',
+               'simplify::pivot_simp', 'simplify::local_comp_simp', 'simplify::gen_pivot_simp', 'simplify::fuse_gadgets', 'simplify::pi_copy_simp', 'simplify::basic_simp',
+               'simplify::to_gh')
+
+
+def _run_fn(f, it, env):
+    try:
+        return it.ev(f['hir'], env)
+    except minirust._Return as ex:
+        return ex.v
+
+
+def decision_semantics(f, facts):
+    """equal_graph_with_options evaluated over every world (dims equal?, composed diagram is the identity?, up-to-phase flag, scalar argument zero?).
+    Soundness table: Some(true) only when dims agree, the identity test was put to `adjoint of one argument composed with the other` (simplified by
+    rules C01 covers) and answered yes, and either the flag allows a phase or the scalar argument of THAT diagram is zero; Some(false) only on a
+    dimension mismatch or (identity, exact mode, non-zero argument); None is always allowed.  -> {name: (ok, counterexample)}; raises NoEval."""
+    ps = [p for p in f['params'] if p.get('k') == 'Bind']
+    if len(ps) != 3:
+        raise minirust.NoEval('three parameters expected')
+    simp = [k for k in facts['fns'] if k.startswith('simplify::')]
+    res = {'answers "equal" only for the identity of (adjoint of one argument composed with the OTHER argument)': [True, None],
+           'exact mode answers "equal" only when the scalar argument of the composed diagram is zero': [True, None],
+           'answers "not equal" only on a dimension mismatch or a non-zero scalar argument of an identity': [True, None]}
+    n = 0
+    for dims, ident, upto, argzero in itertools.product((True, False), repeat=4):
+        w = _world(dims=dims, identity=ident, argzero=argzero)
+        it = _interp(w, set(simp))
+        g1, g2 = _G(('arg', 1), w), _G(('arg', 2), w)
+        got = _run_fn(f, it, {ps[0]['id']: g1, ps[1]['id']: g2, ps[2]['id']: upto})
+        n += 1
+        desc = 'dimensions %s, composed diagram %s the identity, up_to_global_phase=%s, scalar argument %s' % (
+            'agree' if dims else 'differ', 'is' if ident else 'is not', str(upto).lower(), 'zero' if argzero else 'non-zero')
+        if got == minirust.NONE:
+            continue
+        if not (isinstance(got, tuple) and len(got) == 2 and got[0] == 'Some' and isinstance(got[1], bool)):
+            raise minirust.NoEval('result %r' % (got,))
+        asked = w['identity_asked_on']
+        comp_ok = bool(asked) and all(_is_composition(e) for e in asked)
+        dims_ok = (not w['dims_asked']) or all(set(a) == {('arg', 1), ('arg', 2)} for a in w['dims_asked'])
+        if not dims_ok:
+            raise minirust.NoEval('dimension test on %r' % (w['dims_asked'],))
+        dims_known_equal = bool(w['dims_asked']) and dims
+        if got[1]:
+            r = res['answers "equal" only for the identity of (adjoint of one argument composed with the OTHER argument)']
+            if not (comp_ok and ident) and r[0]:
+                r[0], r[1] = False, 'answers Some(true) when %s; identity test put to %s' % (desc, [str(_strip_simp(e)) for e in asked] or 'nothing')
+            r = res['exact mode answers "equal" only when the scalar argument of the composed diagram is zero']
+            arg_ok = bool(w['arg_tested_on']) and all(e in asked for e in w['arg_tested_on']) and argzero
+            if not upto and not arg_ok and r[0]:
+                r[0], r[1] = False, 'answers Some(true) when %s; scalar argument read from %s' % (desc, [str(_strip_simp(e)) for e in w['arg_tested_on']] or 'nothing')
+        else:
+            r = res['answers "not equal" only on a dimension mismatch or a non-zero scalar argument of an identity']
+            mismatch = bool(w['dims_asked']) and not dims
+            nonzero = comp_ok and ident and not upto and bool(w['arg_tested_on']) and all(e in asked for e in w['arg_tested_on']) and not argzero
+            if not (mismatch or nonzero) and r[0]:
+                r[0], r[1] = False, 'answers Some(false) when %s' % desc
+    return dict((k, tuple(v)) for k, v in res.items()), n
+
+
+def tensor_semantics(f):
+    """equal_graph_tensor over the feasible worlds (dims equal?, tensors equal?): must answer exactly `tensors equal` comparing the tensors of its two arguments"""
+    ps = [p for p in f['params'] if p.get('k') == 'Bind']
+    if len(ps) != 2:
+        raise minirust.NoEval('two parameters expected')
+    for dims, teq in ((True, True), (True, False), (False, False)):
+        w = _world(dims=dims, teq=teq)
+        it = _interp(w, set())
+        got = _run_fn(f, it, {ps[0]['id']: _G(('arg', 1), w), ps[1]['id']: _G(('arg', 2), w)})
+        if not isinstance(got, bool):
+            raise minirust.NoEval('result %r' % (got,))
+        if got != teq:
+            return False, 'answers %s when the dimensions %s and the tensors %s' % (str(got).lower(), 'agree' if dims else 'differ', 'are equal' if teq else 'differ')
+        if any(set(p_) != {('arg', 1), ('arg', 2)} for p_ in w['tensors_compared']):
+            return False, 'compares the tensors of %s' % (w['tensors_compared'],)
+        if got and not w['tensors_compared']:
+            return False, 'answers true without comparing the tensors'
+    return True, None
+
+
 def _run_own(ck):
     facts = ck.facts
     ck.decided('D1 decision structure of equal_graph_with_options: Some(true) only under is_identity of (adjoint of one argument plugged with the OTHER argument, fully simplified), with the scalar-argument test in exact mode; Some(false) only on a dimension mismatch or (identity, exact mode, non-zero argument); None otherwise',
@@ -72,25 +294,36 @@ def _run_own(ck):
                'D3 the pieces the definite answers are built from: is_identity contract, adjoint / plug / append_graph effect schemas, the seam edge-type merge table (same rules as C11); soundness of the simplifier is C01')
     ck.not_decided('agreement with ground truth (values)', 'that |scalar| = 1 in exact mode for non-circuit diagrams')
     f = ck.fn(EQ)
-    res = decision_structure(f)
-    rows = res.pop('_rows')
-    for name, ok in res.items():
-        ck.ob('R-PATH', EQ + '/' + name, ok, ck.site(EQ), 'equal_graph_with_options: `%s` does not hold; return table: %s' % (name, rows), sample={'rows': str(rows)[:300]})
-    ck.floor('R-PATH-returns', len(rows), 4)
+    try:
+        sem, nworlds = decision_semantics(f, facts)
+        for name, (ok, cex) in sem.items():
+            ck.ob('R-PATH', EQ + '/' + name, ok, ck.site(EQ), 'equal_graph_with_options, evaluated over %d worlds (dims, identity, flag, scalar argument): %s' % (nworlds, cex), sample={'worlds': nworlds})
+        ck.floor('R-PATH-worlds', nworlds, 16)
+        ck.note('equal_graph_with_options: decided by evaluation over a symbolic host')
+    except (minirust.NoEval, minirust.Proceed, TypeError, KeyError, IndexError, AttributeError) as ex:
+        ck.note('equal_graph_with_options: the evaluator declined (%s); syntactic decision structure used' % ex)
+        res = decision_structure(f)
+        rows = res.pop('_rows')
+        for name, ok in res.items():
+            ck.ob3('R-PATH', EQ + '/' + name, True if ok else None, ck.site(EQ), 'equal_graph_with_options is neither evaluable (%s) nor of the known decision structure: `%s`; return table: %s' % (ex, name, rows), sample={'rows': str(rows)[:300]})
     # D2
     tk = 'equality::equal_graph_tensor'
     tf = ck.fn(tk)
-    ps = [p['name'] for p in tf['params'] if p.get('k') == 'Bind']
-    rp = paths.return_paths(tf)
-    early = [p for p in rp if p.kind == 'return' and hir.lit_bool(p.ret) is False and any(c[0] == 'cond' and not c[2] and hir.callee(hir.strip(c[1])) == 'equality::equal_graph_dim' for c in p.conds)]
-    tails = [p for p in rp if p.kind == 'tail']
-    ok = False
-    if len(tails) == 1 and tails[0].ret is not None:
-        e = hir.strip(tails[0].ret)
-        if e.get('k') == 'Binary' and e['op'] == 'Eq':
-            l, r = hir.strip(e['l']), hir.strip(e['r'])
-            ok = all(x.get('k') == 'MethodCall' and x['name'] == 'to_tensor4' for x in (l, r)) and sorted([hir.local_name(l['recv']), hir.local_name(r['recv'])]) == sorted(ps)
-    ck.ob('R-PATH', tk, len(early) == 1 and ok and len(rp) == 2, ck.site(tk), 'equal_graph_tensor must be: dims differ -> false, otherwise to_tensor4(g1) == to_tensor4(g2)')
+    try:
+        ok, cex = tensor_semantics(tf)
+        ck.ob('R-PATH', tk, ok, ck.site(tk), 'equal_graph_tensor must answer true exactly when the tensors of its two arguments are equal: %s' % cex)
+    except (minirust.NoEval, minirust.Proceed, TypeError, KeyError, IndexError, AttributeError) as ex:
+        ps = [p['name'] for p in tf['params'] if p.get('k') == 'Bind']
+        rp = paths.return_paths(tf)
+        early = [p for p in rp if p.kind == 'return' and hir.lit_bool(p.ret) is False and any(c[0] == 'cond' and not c[2] and hir.callee(hir.strip(c[1])) == 'equality::equal_graph_dim' for c in p.conds)]
+        tails = [p for p in rp if p.kind == 'tail']
+        ok = False
+        if len(tails) == 1 and tails[0].ret is not None:
+            e = hir.strip(tails[0].ret)
+            if e.get('k') == 'Binary' and e['op'] == 'Eq':
+                l, r = hir.strip(e['l']), hir.strip(e['r'])
+                ok = all(x.get('k') == 'MethodCall' and x['name'] == 'to_tensor4' for x in (l, r)) and sorted([hir.local_name(l['recv']), hir.local_name(r['recv'])]) == sorted(ps)
+        ck.ob3('R-PATH', tk, True if (len(early) == 1 and ok and len(rp) == 2) else None, ck.site(tk), 'equal_graph_tensor is neither evaluable (%s) nor of the form: dims differ -> false, otherwise to_tensor4(g1) == to_tensor4(g2)' % ex)
     dk = 'equality::equal_graph_dim'
     df = ck.fn(dk)
     cmps = []
@@ -138,9 +371,12 @@ def _run_own(ck):
     ck.note('the definite answer "equal" rests on C11-D1 (is_identity requires plain wires; fixed in aa6cb9f) and on C01 (simplifier soundness)')
     # positive control
     fx = fixture()
-    r2 = decision_structure(fx['fns']['equality::equal_graph_with_options'])
-    ck.control('R-PATH flags a comparison of a graph with itself', not r2['composes the adjoint of one argument with the OTHER argument, then simplifies'])
-
+    try:
+        r2, _n = decision_semantics(fx['fns']['equality::equal_graph_with_options'], fx)
+        fired = not r2['answers "equal" only for the identity of (adjoint of one argument composed with the OTHER argument)'][0]
+    except (minirust.NoEval, minirust.Proceed) as ex:
+        fired = False
+    ck.control('R-PATH flags a comparison of a graph with itself', fired)
 
 def run(ck, **kw):
     _run_own(ck)
